@@ -227,7 +227,7 @@ class Model:
             lines = o.split('\n') if o else []
             for j, _ in enumerate(chunks[si]):
                 idx = si + j * shards
-                if j < len(lines) and lines[j].strip() != '' and lines[j].strip() != '-1':
+                if j < len(lines) - (0 if o.endswith('\n') is False else 1) and lines[j].strip() != '-1':
                     try:
                         res[idx] = [int(x) for x in lines[j].split()]
                     except ValueError:
